@@ -17,12 +17,17 @@ Abstract values (all JSON-able lists):
               ['s', text]
               ['l', [item, ...], 'dq'|'sq']
               ['d', [[key, entry], ...], 'routed'|'named']     entry: str | int | float by dict type
+              ['d', [[key, entry], ...], 'named', [lead, before_eq, after_eq, before_comma, after_comma, trail]]
+                                             the inline form with blanks ('' | ' ' | '\t' ...) at every placement;
+                                             blanks around keys, values and commas are not significant
+              ['x', key or None, text]       a MALFORMED value (not a boolean / number / k=v ...): must be rejected
               ['u', key, text]               unknown key (not an option of the section)
   CLI side    ['B', ['+'|'-', ...], alias]
               ['S', [value, ...], 'eq'|'sp', alias]
               ['L', [[item, ...], ...]]
               ['D', [[key, entry], ...]]
               ['K', [[name, title] | [name, url, title], ...]]
+              ['X', [token, ...]]            MALFORMED command-line use ('@' = the option's first flag): rejected
 
 Deviation switches (bit flags) -- each one names exactly one difference of plasTeX from the property:
   DEV_BOOL_FILE_TRUTHY   a boolean read from a file is True for every non-empty spelling (bool(str))
@@ -161,6 +166,14 @@ DOC_DEFAULTS = {
     ('html5', 'filters'): [],
     ('mathjax-macros', 'macros'): {},
 }
+# plasTeX/plasTeXrc, the packaged configuration file read by defaultConfig(loadConfigFiles=True) (own copy)
+PACKAGED_RC_LOGGING = {
+    'render.images': 'WARNING', 'parse.mathshift': 'ERROR', 'parse.sections': 'ERROR',
+    'parse.definitions': 'WARNING', 'parse.persistent': 'ERROR', 'parse.commands': 'WARNING',
+    'parse.environments': 'WARNING', 'context.stack': 'WARNING', 'context.macros': 'ERROR',
+    'parse.tokens': 'ERROR', 'tex.kpsewhich': 'ERROR',
+}
+
 # Deviation rule C16.DOC_DEFAULT_STALE: for exactly these options the code default is the value below
 # instead of the documented one.
 DOC_STALE = {
@@ -224,9 +237,15 @@ def print_file_value(v):
     if tag == 's':
         return [(None, v[1])]
     if tag == 'l':
-        q = '"' if v[2] == 'dq' else "'"
-        return [(None, ' '.join((q + it + q) if (' ' in it or v[2] == 'sq') else it for it in v[1]))]
+        q = "'" if v[2] == 'sq' else '"'
+        sep = ' \t ' if v[2] == 'wide' else ' '
+        return [(None, sep.join((q + it + q) if (' ' in it or "'" in it or '"' in it or v[2] == 'sq') else it for it in v[1]))]
+    if tag == 'x':
+        return [(v[1], v[2])]
     if tag == 'd':
+        if v[2] == 'named' and len(v) > 3:
+            lead, be, ae, bc, ac, trail = v[3]
+            return [(None, lead + (bc + ',' + ac).join('%s%s=%s%s' % (k, be, ae, _num(e)) for k, e in v[1]) + trail)]
         if v[2] == 'named':
             return [(None, ','.join('%s=%s' % (k, _num(e)) for k, e in v[1]))]
         return [(k, _num(e)) for k, e in v[1]]
@@ -290,6 +309,8 @@ def print_cli(op, idx):
             out.append(en[0])
             out.extend(ent)
         return out
+    if tag == 'X':
+        return [tok.replace('@', en[0]) for tok in v[1]]
     raise ValueError(v)
 
 
@@ -298,6 +319,14 @@ def print_cli(op, idx):
 # ---------------------------------------------------------------------------------------------
 class ModelError(Exception):
     pass
+
+
+class NoSuchOption(Exception):
+    """%(name)s names no option of any section: reading the value back raises KeyError (documented)."""
+
+
+class Rejected(Exception):
+    """The input contains a malformed value: the configuration must not be produced."""
 
 
 def _copy(v):
@@ -333,6 +362,8 @@ class Model(object):
             if target is not None:
                 self._dict_set(sec, target, v[1], v[2], routed=True)
             return
+        if tag == 'x':
+            raise Rejected(v)
         t = self.idx[(sec, key)][2]
         if tag == 'b':
             val = v[1]
@@ -366,6 +397,8 @@ class Model(object):
         sec, key = op['o']
         v = op['v']
         tag = v[0]
+        if tag == 'X':
+            raise Rejected(v)
         t = self.idx[(sec, key)][2]
         if tag == 'B':
             for sign in v[1]:
@@ -430,7 +463,7 @@ class Model(object):
         for sec in self.order:
             if (sec, name) in self.state:
                 return self.read(sec, name, depth + 1)
-        raise ModelError('no option %s' % name)
+        raise NoSuchOption(name)
 
     def interp(self, text, depth=0):
         out = []
@@ -463,7 +496,13 @@ class Model(object):
         return ''.join(out)
 
     def snapshot(self):
-        return {'%s/%s' % (s, k): enc(self.read(s, k)) for (s, k) in self.state}
+        out = {}
+        for (s, k) in self.state:
+            try:
+                out['%s/%s' % (s, k)] = enc(self.read(s, k))
+            except NoSuchOption:
+                out['%s/%s' % (s, k)] = ['raises', 'KeyError']
+        return out
 
     def snapshot_fast(self):
         """Same result as snapshot(); options still holding their default are taken from a cached
